@@ -16,7 +16,14 @@ def note(key, inp, obs, req):
 
 
 def ref_lex(terminals, ignore, text, gflags, use_bytes):
-    order = sorted(terminals, key=lambda t: (-t.priority, -t.pattern.max_width, -len(t.pattern.value), t.name))
+    # maximal width computed here from the regexp the terminal really compiles to (flags included), not taken from lark
+    try:
+        import re._parser as _sp
+    except ImportError:
+        import sre_parse as _sp
+    def maxw(t):
+        return min(int(_sp.parse(t.pattern.to_regexp(), gflags).getwidth()[1]), 2 ** 31)
+    order = sorted(terminals, key=lambda t: (-t.priority, -maxw(t), -len(t.pattern.value), t.name))
     def rx(t):
         r = t.pattern.to_regexp()
         return re.compile(r.encode('latin-1') if use_bytes else r, gflags)
@@ -51,6 +58,9 @@ GRAMMARS = [
     ('start: (ALPHA|BETA|W)*\nALPHA: "SEL"\nBETA: "sel"i\nW: /[a-z]+/\n%ignore " "', 'SELsel ', 0),
     ('start: (BEGIN|NAME)*\nBEGIN: "BEGIN"\nNAME: /[a-z]+/\n%ignore " "', 'BEGINbegin ', re.I),
     ('start: (KW|ID|OP)*\nKW: "in" | "is"\nID: /[a-z_]+/\nOP: "==" | "="\n%ignore /\\s+/', 'in is_=', 0),
+    # a verbose-flag terminal: blanks and comments in its source are not part of what it matches (width 2, not 5)
+    ('start: (AB|ABC|C)*\nAB: / a b /x\nABC: /abc/\nC: "c"', 'abc', 0),
+    ('start: (D|DT)*\nD: / [0-9] - [0-9]   # date\n /x\nDT: /[0-9]-[0-9]T[0-9]/', '1-T', 0),
 ]
 L = 3 if tier == 'quick' else 5
 for g, alpha, gflags in GRAMMARS:
